@@ -456,6 +456,20 @@ fn check_c01() {
                 Err(e) => falsified("Display/from_str round trip", format!("symbol printed as {:?}", t), format!("panic {}", e)) }
         }
     }
+    // rejected texts with multi-byte characters at every distance from the start (error messages echo the remainder of the input)
+    for n in 0..70usize { for tail in ["\u{2192}", "\u{1F600}\u{2603}", "\u{00e9}\u{00e9}\u{00e9}"] { inputs.push(format!("<1.1:{}{}", "1 ".repeat(n), tail)); inputs.push(format!("{}{}<1.1:1:1,1,1:3,3>", "x".repeat(n), tail)); } }
+    // set / symbol counters 0 in the header, as Display prints them for symbols numbered from 0
+    for s in ["<0.1:1:1,1,1:3,3>", "<1.0:1:1,1,1:3,3>", "<0.0:2:2,1 2,1 2:6,4>"] { inputs.push(s.to_string()); }
+    for ds in corpus().into_iter().filter(|d| d.is_complete()).take(40) {
+        for (a, b) in [(0usize, 0usize), (0, 3), (2, 0)] {
+            if let Ok(t) = quiet(|| format!("{}", SimpleDSym::from_partial(ds.clone(), b))) {
+                let t = t.replacen(&format!("<1.{}:", b), &format!("<{}.{}:", a, b), 1);
+                match quiet(|| t.parse::<PartialDSym>()) { Ok(Ok(back)) => if back != ds { falsified("Display/from_str round trip", format!("symbol printed as {:?}", t), "parses to a different symbol".into()); },
+                    Ok(Err(e)) => falsified("Display/from_str round trip", format!("symbol printed as {:?}", t), format!("does not parse: {}", e.lines().next().unwrap_or(""))),
+                    Err(e) => falsified("Display/from_str round trip", format!("symbol printed as {:?}", t), format!("panic {}", e)) }
+            }
+        }
+    }
     let mut rng = Rng(5);
     let base: Vec<String> = inputs.clone();
     for b in &base { for _ in 0..6 {   // single-character edits of valid text
@@ -1292,6 +1306,11 @@ fn check_c13() {
         (2, vec![w(&[2]), w(&[1, 1, 1])], 3),                                                                        // Z3 = <a,b | b, a^3>
         (3, vec![w(&[1, 1]), w(&[2, 2]), w(&[1, 2, 1, 2, 1, 2]), w(&[3])], 6),                                      // S3 with a trivial third generator
         (2, vec![w(&[1, 1, 1, 1]), w(&[2, -1, -1])], 4),                                                             // Z4 = <a,b | a^4, b a^-2>
+        // relators that are freely but NOT cyclically reduced (conjugated relators): rotations of them reduce further
+        (2, vec![w(&[1, 1]), w(&[1, 2, 2, 2, -1]), w(&[1, 2, 1, 2])], 6),                                            // S3 = <a,b | a^2, a b^3 a^-1, (ab)^2>
+        (2, vec![w(&[2, 1, 1, 1, 1, -2]), w(&[2, 2]), w(&[1, 2, 1, 2])], 8),                                        // D4 = <a,b | b a^4 b^-1, b^2, (ab)^2>
+        (2, vec![w(&[2, 1, 1, 1, -2]), w(&[2, 2]), w(&[1, 2, 1, 2, 1, 2])], 12),                                    // A4 = <a,b | b a^3 b^-1, b^2, (ab)^3>
+        (2, vec![w(&[1, 1, 1, -2, -2, -2]), w(&[1, 1, 1, -2, -1, -2, -1])], 24),                                    // SL(2,3) = <a,b | a^3 b^-3, a^3 (ab)^-2>
     ];
     for (n, rels, order) in &groups {
         let (n, order) = (*n, *order);
